@@ -4132,7 +4132,7 @@ def implies(
     )
 
     return (
-        safe(solver.solve, exceptions=(StopIteration,))()
+        safe(exceptions=(StopIteration,))(solver.solve)()
         .map(lambda _: False)
         .lash(lambda _: Success(True))
     ).unwrap()
